@@ -99,12 +99,63 @@ def frame_unit(kind):
     return lambda: (e1.setup(), vc.run_unit('frame', thunk))[1]
 
 
+def frame_native(seed=0, hints=()):
+    """native cross-check of the three entry points on composed samples: exact-size <=> n == len, in-place removal of
+    exactly n bytes, buffers untouched on failure"""
+    from cryptoparser.common.exception import TooMuchData
+    from cryptoparser.tls.record import TlsRecord
+    from cryptoparser.tls.subprotocol import TlsAlertMessage, TlsAlertLevel, TlsAlertDescription
+    from cryptoparser.tls.rdp import TPKT
+    samples = []
+    try:
+        samples.append((TlsAlertMessage, bytes(TlsAlertMessage(TlsAlertLevel.FATAL, TlsAlertDescription.HANDSHAKE_FAILURE).compose())))
+        samples.append((TPKT, bytes(TPKT(version=3, message=b'abc').compose())))
+    except Exception:
+        pass
+    for cls in (TlsRecord,):
+        samples += [(cls, s) for s in common.samples(cls)[:3]]
+    for cls, good in samples:
+        try:
+            obj, n = cls.parse_immutable(good)
+        except Exception:
+            continue
+        for tail in (b'', b' ', b'\n', b'\t\r\n ', b'\x00', b'\xff', b'\x0b\x0c'):
+            data = good[:n] + tail
+            call = '%s.parse_exact_size(bytes.fromhex(%r))' % (cls.__name__, data.hex())
+            try:
+                cls.parse_exact_size(data)
+                if tail:
+                    return dict(reproduced=True, call=call, expected='TooMuchData (%d bytes left over)' % len(tail), observed='accepted', key='exact size')
+            except TooMuchData:
+                if not tail:
+                    return dict(reproduced=True, call=call, expected='accepted', observed='TooMuchData', key='exact size')
+            except Exception as ex:
+                return dict(reproduced=True, call=call, expected='accepted or TooMuchData', observed=repr(ex)[:100], key='exact size')
+            buf = bytearray(data)
+            try:
+                cls.parse_mutable(buf)
+                if bytes(buf) != tail:
+                    return dict(reproduced=True, call='%s.parse_mutable(bytearray.fromhex(%r))' % (cls.__name__, data.hex()),
+                                expected='%r left in the buffer' % tail, observed=repr(bytes(buf)), key='in place')
+            except Exception as ex:
+                return dict(reproduced=True, call='%s.parse_mutable(...)' % cls.__name__, expected='success', observed=repr(ex)[:100], key='in place')
+        bad = bytearray(good[:max(0, n - 1)])
+        keep = bytes(bad)
+        try:
+            cls.parse_mutable(bad)
+        except Exception:
+            if bytes(bad) != keep:
+                return dict(reproduced=True, call='%s.parse_mutable(<truncated>)' % cls.__name__, expected='buffer untouched on failure',
+                            observed=repr(bytes(bad))[:80], key='in place')
+    return dict(reproduced=False)
+
+
 def units(tier, seed):
     classes = common.select_classes(e1.binary_classes(), tier, 'C03')
     out = [k2_unit(c) for c in classes]
     for kind in ('parse_mutable', 'parse_exact_size', 'parse_immutable'):
-        out.append(Unit('FR/ParsableBaseNoABC.%s' % kind, frame_unit(kind), clause='frame',
-                        functions=['ParsableBaseNoABC.%s' % kind]))
+        out.append(Unit('FR/ParsableBaseNoABC.%s' % kind, frame_unit(kind), clause='frame', replay=lambda inputs: frame_native(0),
+                        search=frame_native, functions=['ParsableBaseNoABC.%s' % kind]))
     from checks import c03_k8
     out.extend(c03_k8.units(tier, seed))
     UNCOVERED[:] = common.uncovered_report(e1.binary_classes(), classes)
